@@ -12,9 +12,16 @@ def check(ctx):
     ctx.assume("which of several concurrent failures is recorded first is not decided (the property fixes it for one worker only)")
     r = E.discover(ctx.model)
     rr = R.discover(ctx.model, r)
-    E.rule_enqueue_after_success(ctx, "C06.X1", r)
-    E.rule_atomic_counter(ctx, "C06.X1", r)
-    E.rule_catch_all(ctx, "C06.X2", r)
-    E.rule_first_error(ctx, "C06.X3", r)
-    R.rule_cause_chain(ctx, "C06.X4", rr)
-    R.rule_no_value_on_failure(ctx, "C06.X5", rr)
+    ctx.run(E.rule_enqueue_after_success, "C06.X1", r)
+    ctx.run(E.rule_atomic_counter, "C06.X1", r)
+    ctx.run(E.rule_catch_all, "C06.X2", r)
+    ctx.run(E.rule_first_error, "C06.X3", r)
+    ctx.run(R.rule_cause_chain, "C06.X4", rr)
+    ctx.run(R.rule_no_value_on_failure, "C06.X5", rr)
+    from .extra import rule_plan_records_dependencies, rule_exit_not_truthy, rule_error_path_total
+    ctx.run(rule_exit_not_truthy, "C06.X5")
+    ctx.run(rule_plan_records_dependencies, "C06.X1")
+    ctx.run(E.rule_callbacks_only_via_engine, "C06.X1", r, [rr.runcb, rr.stalecb])
+    ctx.run(rule_error_path_total, "C06.X4")
+    from .common import rule_pruning_preserves_paths
+    ctx.run(rule_pruning_preserves_paths, "C06.X1")
